@@ -294,6 +294,7 @@ func checkC11(w *Worker) {
 		}
 		c.Args = append(c.Args, [][]string{{"--no-color", "reg"}, {"csv", "database-resolved"}, {"report", "element-total", "cal"}, {"--no-color", "bal", "-s", "cal"}}[ci]...)
 		r := runApp(c)
+		x.w.binMustAgree(x, c, r, "C11|app")
 		wantErr := delta == 2 || L >= n
 		x.Obs(fmt.Sprint(r.Failed), r.Err)
 		x.Case(fmt.Sprint(src, n, delta, ci), true)
